@@ -398,6 +398,10 @@ class Engine:
                 v = self.eval_promoted(path, o)
                 if v is not None:
                     return v
+            if o.get("const_def") and self.facts is not None and o["const_def"] in self.facts.fns and self.depth < self.max_depth:
+                v = self.eval_named_const(path, self.facts.fns[o["const_def"]])
+                if v is not None:
+                    return v
             if o.get("fn"):
                 return ("fn", o["fn"], o.get("fn_path"))
             if o.get("static"):
@@ -406,6 +410,22 @@ class Engine:
                 return ("unit",)
             return ("const", o.get("s"))
         return ("sym", "op?")
+
+    def eval_named_const(self, path, cfn):
+        """Value of a named constant (`const X: T = expr;`): its initialiser body is run like a function without
+        arguments (pure by construction); only a single straight result is used."""
+        if cfn.name in self.stack:
+            return None
+        try:
+            sub = Engine(cfn, self.facts, self.model, cut_edges=cfn.back_edges(), visit_limit=1, max_paths=50,
+                         depth=self.depth + 1, inline=r".", max_depth=self.max_depth, stack=self.stack, desugar=None)
+            outs = sub.run(0, path.fork())
+        except Exception:
+            return None
+        rets = [p.end[1] for p in outs if p.end and p.end[0] == "return"]
+        if len(rets) == 1 and len(outs) == 1:
+            return rets[0]
+        return None
 
     def eval_promoted(self, path, o):
         """Value of a promoted constant (`&CONST`): straight-line evaluation of its tiny body into a
